@@ -222,7 +222,8 @@ def evaluate(case):
                     with open(tp, "wb") as f:
                         f.write(b"already archived %d" % k)
         rebuild()
-        report = D.make_report(sc, ["--min", "0"] + case["gargs"], case["roots"], fmt=case["fmt"])
+        report = D.make_report(sc, ["--min", "0"] + case["gargs"], case["roots"], fmt=case["fmt"],
+                               stdin_roots=case["tree"].endswith("stdin_overlap"))
         rep = D.report_groups(report)
         members.extend(p for g in rep.groups for p in g["paths"])
         if case.get("prepop"):
